@@ -73,11 +73,19 @@ def build_lean(targets):
     return r
 
 
+def prop_modules(pid):
+    """the property modules of `pid`: BS/Props/<pid>.lean and, when present, the extension file <pid>b.lean"""
+    mods = [pid]
+    if os.path.exists(os.path.join(LEAN, "BS", "Props", pid + "b.lean")):
+        mods.append(pid + "b")
+    return mods
+
+
 def theorems_of(pid):
     path = os.path.join(LEAN, "BS", "Props", pid + ".lean")
     if not os.path.exists(path):
         return [], path
-    src = open(path).read()
+    src = "\n".join(open(os.path.join(LEAN, "BS", "Props", m + ".lean")).read() for m in prop_modules(pid))
     # strip comments before looking for forbidden constructs and theorem names
     nocom = re.sub(r"/-.*?-/", "", src, flags=re.S)
     nocom = re.sub(r"--.*", "", nocom)
@@ -113,7 +121,7 @@ def audit(pid, tier="quick"):
             if r.returncode != 0:
                 raise Infra("lake build bsmodel failed: " + (r.stdout + r.stderr)[-2000:])
         return 0, 0, [], [f"no theorem named {pid}_* in {path}"]
-    r = build_lean([f"BS.Props.{pid}", "bsmodel"])
+    r = build_lean([f"BS.Props.{m}" for m in prop_modules(pid)] + ["bsmodel"])
     if r.returncode != 0:
         msg = (r.stdout + r.stderr)[-3000:]
         # which theorem broke, if the message says
@@ -122,7 +130,7 @@ def audit(pid, tier="quick"):
     os.makedirs(os.path.join(BUILD, "audit"), exist_ok=True)
     ap = os.path.join(BUILD, "audit", pid + ".lean")
     with open(ap, "w") as f:
-        f.write(f"import BS.Props.{pid}\nopen BS\n")
+        f.write("".join(f"import BS.Props.{m}\n" for m in prop_modules(pid)) + "open BS\n")
         for n in names:
             f.write(f"#print axioms BS.{n}\n")
     r = sh(["lake", "env", "lean", ap], cwd=LEAN, timeout=900)
@@ -146,20 +154,22 @@ def audit(pid, tier="quick"):
         problems.append("forbidden constructs in the Lean sources: " + "; ".join(forb[:5]))
     if tier == "thorough":
         # independent re-check of the compiled property module by the toolchain's `leanchecker`
-        r = sh(["lake", "env", "leanchecker", f"BS.Props.{pid}"], cwd=LEAN, timeout=1800)
-        details.append({"leanchecker": f"BS.Props.{pid}", "rc": r.returncode})
-        if r.returncode != 0:
-            problems.append(f"leanchecker rejects BS.Props.{pid}: {(r.stdout + r.stderr)[-500:]}")
+        for m in prop_modules(pid):
+            r = sh(["lake", "env", "leanchecker", f"BS.Props.{m}"], cwd=LEAN, timeout=1800)
+            details.append({"leanchecker": f"BS.Props.{m}", "rc": r.returncode})
+            if r.returncode != 0:
+                problems.append(f"leanchecker rejects BS.Props.{m}: {(r.stdout + r.stderr)[-500:]}")
     return len(names), discharged, details, problems
 
 
 # ----------------------------------------------------------------------------- running ops
 def split_ops(ops, n):
     """split into ~n chunks; cache histories (starting at `cnew`) are kept whole"""
-    if len(ops) < 200:
+    big = sum(len(o) for o in ops) > 4_000_000
+    if len(ops) < 200 and not big:
         return [ops]
     chunks, cur = [], []
-    target = max(100, len(ops) // n + 1)
+    target = max(1 if big else 100, len(ops) // n + 1)
     for op in ops:
         if len(cur) >= target and not op.startswith(("cins", "cget")):
             chunks.append(cur)
